@@ -68,7 +68,11 @@ def encode_graph(g, idx):
 WARN_SITE = [(re.compile(r"were isolates"), 1), (re.compile(r"Cyclical relations"), 2), (re.compile(r"Provided relations included mapping"), 3)]
 
 
-def real_build(order_idx, via="typeset"):
+CONTAINERS = {"list": list, "generator": lambda ts: (t for t in ts), "iterator": iter, "tuple": tuple, "frozenset": frozenset,
+              "dict_keys": lambda ts: dict.fromkeys(ts).keys(), "reversed": lambda ts: reversed(list(ts))}
+
+
+def real_build(order_idx, via="typeset", container="list"):
     """Construct in REAL visions with the given node order.  via='typeset': VisionsTypeset(list) and
     report the order set(types) had; via='build_graph': build_graph(ordered list) directly."""
     import networkx as nx
@@ -80,8 +84,8 @@ def real_build(order_idx, via="typeset"):
         warnings.simplefilter("always")
         try:
             if via == "typeset":
-                order = [st["idx"][t] for t in set(types)]
-                ts = VisionsTypeset(types)
+                order = [st["idx"][t] for t in set(CONTAINERS[container](types))]     # the iteration order the constructor's own set(...) will have
+                ts = VisionsTypeset(CONTAINERS[container](types))      # any iterable of types is accepted by the constructor
                 rg, bg, root, tys = ts.relation_graph, ts.base_graph, ts.root_node, sorted(st["idx"][t] for t in ts.types)
             else:
                 order = list(order_idx)
@@ -91,7 +95,7 @@ def real_build(order_idx, via="typeset"):
                 tys = sorted(st["idx"][t] for t in rg.nodes)
         except Exception as e:  # noqa
             code = {"KeyError": 1, "ValueError": 2, "NetworkXError": 5, "StopIteration": 6, "NetworkXUnfeasible": 7}.get(type(e).__name__, 9)
-            return order if via != "typeset" else [st["idx"][t] for t in set(types)], ("raise", code)
+            return order if via != "typeset" else [st["idx"][t] for t in set(CONTAINERS[container](types))], ("raise", code)
     wsites = sorted(next((s for rx, s in WARN_SITE if rx.search(str(w.message))), 0) for w in ws)
     return order, ("ok", st["idx"][root], encode_graph(rg, st["idx"]), encode_graph(bg, st["idx"]), tys, wsites)
 
@@ -208,6 +212,13 @@ def work(chunk):
         order2, real2 = real_build(sh, "build_graph")
         msg2 = wellformed(sub, real2) if closed else None
         out.append((sub, order2, real2, msg2, 1))
+        if closed and rnd.random() < 0.15:
+            cont = rnd.choice([c for c in CONTAINERS if c != "list"])
+            order3, real3 = real_build(sh, "typeset", cont)
+            msg3 = wellformed(sub, real3)
+            if msg3:
+                msg3 += f" [types supplied as a {cont}]"
+            out.append((sub, order3, real3, msg3, 0))
     return out
 
 
@@ -232,7 +243,7 @@ def replay(path):
         return 1
     init_worker()
     idx = [_STATE["names"].index(n) for n in r["order"]]
-    order, real = real_build(idx, r.get("via", "build_graph"))
+    order, real = real_build(idx, r.get("via", "build_graph"), r.get("container", "list"))
     msg = wellformed(tuple(sorted(_STATE["names"].index(n) for n in r["subset"])), real)
     print("replay:", msg or "property holds on this input")
     return 1 if msg else 0
@@ -293,6 +304,7 @@ def run(args):
     if bad:
         b = min(bad, key=lambda r: len(r[0]))
         run.violation({"what": b[3], "subset": [names[i] for i in b[0]], "order": [names[i] for i in b[1]], "via": "typeset" if b[4] == 0 else "build_graph",
+                       "container": (re.search(r"supplied as a (\w+)", b[3]) or [None, "list"])[1],
                        "python": "VisionsTypeset({" + ", ".join("visions.types." + names[i] for i in b[0]) + "})",
                        "broken_obligations": run.failed_obligations()})
     elif run.failed_obligations():
